@@ -247,6 +247,18 @@ def accuracy_oracle(args):
             return f"expm_krylov (size {big}) inaccurate"
         if np.linalg.norm(out - small_out) > 1e-10 * np.linalg.norm(v):
             return "two calls with the same arguments disagree"
+        # the same problem on the other code path (the compiled kernel is used from NUMBA_THRESHOLD entries on)
+        import mqt.yaqs.core.methods.matrix_exponential as ME
+
+        saved_thr = ME.NUMBA_THRESHOLD
+        try:
+            ME.NUMBA_THRESHOLD = 10**9 if big >= saved_thr else 1
+            other = expm_krylov(op, v.copy(), dt)
+        finally:
+            ME.NUMBA_THRESHOLD = saved_thr
+        if np.linalg.norm(out - other) > 1e-9 * np.linalg.norm(v):
+            return (f"compiled and pure-Python paths of expm_krylov disagree by {np.linalg.norm(out - other) / np.linalg.norm(v):.3e} on a vector of {big} entries "
+                    f"(dt={dt})")
         return None
     if kind == "update_site":
         import mqt.yaqs.core.methods.tdvp as T
@@ -289,7 +301,8 @@ def search(ctx):
         # local TDVP updates on the environments of real states, down to product states (one-entry bond tensors)
         plan.append(dict(kind="local_exact", seed=int(ctx.rng.integers(0, 2**31)), n=0, L=int(ctx.rng.integers(2, 6)), chi=[1, 1, 2, 3, 4, 6][k % 6],
                          which=["bond", "site"][k % 2], dt=float(ctx.rng.choice([-0.7, 0.05, 0.3, 0.7]))))
-    plan += [dict(kind="numba", seed=1, n=4095, dt=0.1), dict(kind="numba", seed=2, n=4096, dt=0.1), dict(kind="numba", seed=3, n=1200, dt=-0.2)]
+    plan += [dict(kind="numba", seed=1, n=4095, dt=0.1), dict(kind="numba", seed=2, n=4096, dt=0.1), dict(kind="numba", seed=3, n=1200, dt=-0.2),
+             dict(kind="numba", seed=5, n=4097, dt=0.5), dict(kind="numba", seed=6, n=4225, dt=-0.7)]  # odd lengths on the compiled path (65x65 bonds, qutrit sites)
     if not ctx.quick:
         plan += [dict(kind="numba", seed=4, n=5000, dt=0.05)]
     for a in plan:
